@@ -2,6 +2,7 @@ package main
 
 import (
 	"fmt"
+	"go/types"
 	"sort"
 	"strings"
 
@@ -224,7 +225,25 @@ func propC11(c *Ctx, r *Report) {
 			flows = sliceHas(ng[0].Common().Args[2], func(v ssa.Value) bool { return v == ci.(ssa.Value) })
 		}
 		r.check(flows, "C11/previous-winners", "previous winners handed to the grader", c.ipos(ci), "", "the grader is not given the previous winners read from the database")
+		if len(ng) == 1 {
+			// no other source: in particular no in-memory field
+			var other []string
+			backSlice(ng[0].Common().Args[2], func(v ssa.Value) bool {
+				if tp := typePath(v); strings.HasPrefix(tp, "node.Pegnetd.") || strings.HasPrefix(tp, "pegnet.Pegnet.") {
+					// a data-carrying field (slice/map/string), not the receiver chain d.Pegnet
+					switch v.Type().Underlying().(type) {
+					case *types.Slice, *types.Map, *types.Basic:
+						other = append(other, tp)
+					}
+				}
+				return true
+			})
+			r.check(len(other) == 0, "C11/previous-winners", "previous winners come from the database only", c.ipos(ng[0]), "", "the previous winners given to the grader can come from in-memory state ("+strings.Join(uniq(other), ",")+"): after a rolled-back attempt or a restart they differ from what the database holds")
+		}
 	}
+
+	r.rule("C11/no-carried-state", 1, "grading and reward payout read the chain and the database only")
+	ruleNoCarriedReads(c, newSharedAnalysis(c), r, "C11/no-carried-state", reachOf(c, "node.Pegnetd.Grade", "node.Pegnetd.GradeS", "node.Pegnetd.ApplyGradedOPRBlock", "node.Pegnetd.ApplyGradedSPRBlock", "node.Pegnetd.ApplyFactoidBlock"), carriedAllowedSync, "grading/rewards")
 
 	// staker identity binding
 	r.rule("C11/staker-identity", 1, "the id checked against the top PEG holders is the key whose signature the grader verifies")
